@@ -417,6 +417,7 @@ fn racing_history(lane_no: u64, ops: &Arc<dyn GlobalOps>, round: u64, rep: &Repo
             std::thread::spawn(move || {
                 let mut accepted = vec![];
                 let mut refused = vec![];
+                let mut first_refusal_ticket = 0u64;
                 let mut s = 0u32;
                 // 3 x 20000 < the queue's capacity (65536): the queue can never overflow, so an entry
                 // that was accepted can only leave it through the stream
@@ -424,12 +425,17 @@ fn racing_history(lane_no: u64, ops: &Arc<dyn GlobalOps>, round: u64, rep: &Repo
                     let id = make_id(1000 + t + 10 * lane_no as u32, s);
                     match ops.try_append(IdEntry { id }) {
                         Ok(()) => accepted.push(id),
-                        Err(e) => refused.push(e.id),
+                        Err(e) => {
+                            if first_refusal_ticket == 0 {
+                                first_refusal_ticket = vcommon::sync::ticket();
+                            }
+                            refused.push(e.id)
+                        }
                     }
                     s += 1;
                     progress_tick();
                 }
-                (accepted, refused)
+                (accepted, refused, first_refusal_ticket)
             })
         })
         .collect();
@@ -441,10 +447,24 @@ fn racing_history(lane_no: u64, ops: &Arc<dyn GlobalOps>, round: u64, rep: &Repo
     stop.store(true, Ordering::SeqCst);
     let mut accepted = vec![];
     let mut refused = vec![];
+    let mut first_refusal = u64::MAX;
     for t in threads {
-        let (a, r) = t.join().expect("appender panicked");
+        let (a, r, f) = t.join().expect("appender panicked");
         accepted.extend(a);
         refused.extend(r);
+        if f != 0 {
+            first_refusal = first_refusal.min(f);
+        }
+    }
+    // routing moves on to "nothing attached" only AFTER the detached sink has flushed what it accepted
+    let closed_at = sh.dropped_at.load(Ordering::SeqCst);
+    if first_refusal != u64::MAX && (closed_at == 0 || first_refusal < closed_at) {
+        rep.violation(
+            "routing-restored-before-detached-sink-flushed",
+            json!({"what": "an entry was handed back (nothing attached) while the sink being detached had not yet written, flushed and closed its stream", "round": round,
+                   "first_entry_handed_back_at_ticket": first_refusal, "detached_stream_closed_at_ticket": closed_at}),
+        );
+        return false;
     }
     let final_log: std::collections::HashSet<u64> = sh.log().iter().filter_map(|e| e.id()).collect();
     let witness = |what: &str, extra: vcommon::serde_json::Value| json!({"what": what, "round": round, "accepted": accepted.len(), "refused": refused.len(), "written_at_detach": log_at_detach.len(), "written_finally": final_log.len(), "extra": extra});
@@ -657,6 +677,62 @@ fn noisy_history(lane_no: u64, ops: &Arc<dyn GlobalOps>, runtimes: &[Arc<tokio::
     ok
 }
 
+/// a second global sink type with the SAME NAME as lane 0's, declared in another module (an
+/// application's own `ServiceMetrics` next to a library's): the two must not share anything
+mod twin {
+    use metrique_writer::sink::global_entry_sink;
+    global_entry_sink! { G0 }
+}
+
+fn same_named_globals(runtimes: &[Arc<tokio::runtime::Runtime>], rep: &Report) -> bool {
+    let (mine, theirs, mine_rt, theirs_rt) = (CountingSink::new(), CountingSink::new(), CountingSink::new(), CountingSink::new());
+    let h_mine = <G0 as AttachGlobalEntrySink>::attach((mine.clone(), ()));
+    let h_theirs = <twin::G0 as AttachGlobalEntrySink>::attach((theirs.clone(), ()));
+    let ids = |s: &CountingSink| s.snapshot().iter().filter_map(|a| a.u64_field("id")).collect::<Vec<u64>>();
+    let mut ok = true;
+    let fail = |what: &str, extra: vcommon::serde_json::Value| {
+        rep.violation("entry-routed-to-wrong-destination", json!({"what": what, "scenario": "two global sinks whose types have the same name (declared in different modules)", "extra": extra}));
+    };
+    {
+        let _enter = runtimes[0].enter();
+        // a runtime test sink for THEIR global must not capture entries of mine, and vice versa
+        let g_theirs = twin::G0::set_test_sink_for_tokio_runtime(runtimes[0].handle(), BoxEntrySink::new(theirs_rt.clone()));
+        <G0 as GlobalEntrySink>::append(IdEntry { id: 1 });
+        <twin::G0 as GlobalEntrySink>::append(IdEntry { id: 2 });
+        let r = catch_unwind(AssertUnwindSafe(|| G0::set_test_sink_for_tokio_runtime(runtimes[0].handle(), BoxEntrySink::new(mine_rt.clone()))));
+        match r {
+            Err(_) => {
+                fail("installing a runtime test sink for one global panicked because the other, same-named global has one on that runtime", json!({}));
+                ok = false;
+            }
+            Ok(g_mine) => {
+                <G0 as GlobalEntrySink>::append(IdEntry { id: 3 });
+                <twin::G0 as GlobalEntrySink>::append(IdEntry { id: 4 });
+                drop(g_mine);
+                <G0 as GlobalEntrySink>::append(IdEntry { id: 5 });
+                <twin::G0 as GlobalEntrySink>::append(IdEntry { id: 6 });
+            }
+        }
+        drop(g_theirs);
+        <twin::G0 as GlobalEntrySink>::append(IdEntry { id: 7 });
+    }
+    drop(h_mine);
+    drop(h_theirs);
+    if ok {
+        let got = json!({"mine_attached": ids(&mine), "mine_runtime_sink": ids(&mine_rt), "theirs_attached": ids(&theirs), "theirs_runtime_sink": ids(&theirs_rt)});
+        let want = json!({"mine_attached": [1, 5], "mine_runtime_sink": [3], "theirs_attached": [7], "theirs_runtime_sink": [2, 4, 6]});
+        if got != want {
+            fail("entries of two same-named globals ended up in the wrong sinks", json!({"got": got, "expected": want}));
+            ok = false;
+        }
+    }
+    if ok {
+        rep.count("same_named_global_scenarios", 1);
+        rep.distinct(Fnv::new().str("same-named-globals").finish());
+    }
+    ok
+}
+
 fn main() {
     std::panic::set_hook(Box::new(|_| {})); // expected panics are part of the histories
     let args = Args::parse();
@@ -691,6 +767,9 @@ fn main() {
                     next_id: 0,
                     lane: lane_no,
                 };
+                if lane_no == 0 && !same_named_globals(&lane.runtimes, rep) {
+                    return;
+                }
                 let mut round = 0u64;
                 while start.elapsed() < budget && rep.violation_count() == 0 {
                     round += 1;
